@@ -23,7 +23,7 @@ META = {
     "level_note": ("Trusted: the translator (tables, regex strings, AST pins of the six function bodies), the hand-written reading of the "
                    "three pinned regexes and of int() on ASCII digit strings (4300-digit limit of CPython included), the binary64 model of "
                    "'%.2f' % (s/U) (validated against the interpreter on every run, not proved against IEEE-754).  The client.py call "
-                   "site is exercised by the correspondence only."),
+                   "site is exercised by the correspondence only (tahoe.cfg text -> _Client.get_anonymous_storage_server -> the values a real, never started StorageServer and its LeaseCheckingCrawler hold)."),
     "technique": "Coq proof (accepted language = documented grammar, all strings) over tables regenerated from source + differential run vs implementation and an independent grammar reference",
     "design_ref": "8/C48",
     "trusted_base": ["translator harness/translate/config.py (tables, regexes, AST pins)",
@@ -486,43 +486,31 @@ class _Recorder(Exception):
 
 
 class _ConfigPath(object):
-    """tahoe.cfg text -> _Client.get_anonymous_storage_server -> the keyword arguments StorageServer receives"""
+    """tahoe.cfg text -> _Client.get_anonymous_storage_server -> the values the REAL StorageServer and its
+    LeaseCheckingCrawler hold afterwards (nothing is started: the parent service is never run)."""
+    serial = 0
 
     def __enter__(self):
+        from twisted.application import service
         from allmydata import client as client_mod
         self.client_mod = client_mod
-        self.captured = captured = {}
 
-        class FakeStorageServer(object):
-            name = "storage"
-
-            def __init__(self, storedir, nodeid, **kw):
-                captured.clear()
-                captured.update(kw)
-
-            def setServiceParent(self, parent):
-                pass
-
-        class FakeClient(object):
+        class FakeClient(service.MultiService):
             STOREDIR = "storage"
             nodeid = b"n" * 20
             stats_provider = None
-
-            def getServiceNamed(self, name):
-                raise KeyError(name)
 
             def get_config(self, *a, **kw):
                 return self.config.get_config(*a, **kw)
 
         self.FakeClient = FakeClient
-        self.real = client_mod.StorageServer
-        client_mod.StorageServer = FakeStorageServer
         return self
 
     def __exit__(self, *a):
-        self.client_mod.StorageServer = self.real
+        pass
 
-    def kwargs(self, space, dur, date):
+    def kwargs(self, space, dur, date, mutable=None, immutable=None):
+        import os
         from allmydata import node
         lines = ["[node]", "nickname = x", "[storage]", "enabled = true"]
         if space is not None:
@@ -533,17 +521,46 @@ class _ConfigPath(object):
             lines.append("expire.override_lease_duration = " + dur)
         if date is not None:
             lines.append("expire.cutoff_date = " + date)
-        cfg = node.config_from_string(ctx_scratch(), "portnum", "\n".join(lines) + "\n", self.client_mod._valid_config())
+        if mutable is not None:
+            lines.append("expire.mutable = " + mutable)
+        if immutable is not None:
+            lines.append("expire.immutable = " + immutable)
+        _ConfigPath.serial += 1
+        basedir = os.path.join(ctx_scratch(), "n%d" % _ConfigPath.serial)
+        os.makedirs(basedir)
+        cfg = node.config_from_string(basedir, "portnum", "\n".join(lines) + "\n", self.client_mod._valid_config())
         fake = self.FakeClient()
         fake.config = cfg
-        return call(lambda: self.client_mod._Client.get_anonymous_storage_server(fake) and dict(self.captured))
+
+        def go():
+            ss = self.client_mod._Client.get_anonymous_storage_server(fake)
+            lc = ss.lease_checker
+            return {"reserved_space": ss.reserved_space,
+                    "expiration_override_lease_duration": lc.override_lease_duration,
+                    "expiration_cutoff_date": lc.cutoff_date,
+                    "expiration_sharetypes": tuple(lc.sharetypes_to_expire),
+                    "expiration_mode": lc.mode, "expiration_enabled": lc.expiration_enabled}
+        return call(go)
 
 
 def call_site(ctx):
     """_Client.get_anonymous_storage_server reads the three settings from tahoe.cfg and hands the parsed values to StorageServer."""
     cases = [("100 M", "60 days", None), ("1024 Ki", "2mo", None), ("1048576 B", "3 month", None), ("5G", "12 months", None), ("", "2years", None),
              ("10000000000", "7days", None), (None, None, "2009-01-16"), ("1MiB", None, "2008-02-29"), ("1 BB", "7days", None), ("1G", "7 dayz", None),
-             ("1G", None, "2009-02-30"), ("1G", None, "2009-01-16 10:20:30"), ("1.5G", None, None), ("1G", "5 \u017f", None), ("1k\u0131b", None, None)]
+             ("1G", None, "2009-02-30"), ("1G", None, "2009-01-16 10:20:30"), ("1.5G", None, None), ("1G", "5 \u017f", None), ("1k\u0131b", None, None),
+             (None, None, None), ("0", None, None), ("0B", None, None), ("0 KiB", None, None), ("1", None, None), ("1B", None, None),
+             ("9EiB", None, None), ("18446744073709551616", None, None), ("1" + "0" * 30 + " E", None, None),
+             (None, None, "0001-01-01"), (None, None, "1970-01-01"), (None, None, "1969-12-31"), (None, None, "9999-12-31")]
+    # boundary durations with every documented unit spelling: zero is a value (leases expire at once), not "not configured"
+    for unit in sorted(DOC_UNITS):
+        r = ctx.rng("site-unit", unit)
+        cases.append((None, "0" + r.choice(["", " ", "  "]) + casing(r, unit), None))
+        cases.append((None, r.choice(["1", "00", "000", "1" + "0" * 25, "18446744073709551616"]) + r.choice(["", " "]) + casing(r, unit), None))
+    cases += [(None, "0s", None), (None, "1s", None), (None, "0 days", None), (None, "0mo", None), (None, "0 years", None), ("0", "0 s", None)]
+    for i in range(ctx.n(20, 200)):
+        r = ctx.rng("site", i)
+        cases.append((r.choice([None, number(r) + r.choice(WSPACE[:6]).strip("\n") + casing(r, r.choice(sorted(DOC_SUFFIXES)))]),
+                      r.choice([None, number(r) + r.choice(["", " "]) + casing(r, r.choice(sorted(DOC_UNITS)))]), None))
     with _ConfigPath() as path:
         for i, (space, dur, date) in enumerate(cases):
             got = path.kwargs(space, dur, date)
@@ -559,11 +576,20 @@ def call_site(ctx):
                         "expiration_cutoff_date": None if want_date == "unset" else want_date}
                 obs = {k: got[1].get(k) for k in want} if got[0] == "ok" else got
                 if obs != want:
-                    ctx.oracle_fail("client-storage-config-wrong-value", "tahoe.cfg %r reaches StorageServer as %r, documented meaning %r" % (case, obs, want),
-                                    case=case, expected=want, observed=obs)
+                    ctx.oracle_fail("client-storage-config-wrong-value", "tahoe.cfg %r reaches the storage server / lease expirer as %r, documented meaning %r (None = not configured)" % (case, obs, want),
+                                    case=case, expected=repr(want), observed=repr(obs))
             elif got[0] != "ValueError":
                 ctx.oracle_fail("client-storage-config-malformed-accepted", "tahoe.cfg with a malformed value %r was not rejected with ValueError: %r" % (case, got),
                                 case=case, expected="ValueError", observed=got)
+        for mut, imm in [(None, None), ("true", "false"), ("false", "true"), ("false", "false"), ("True", None), (None, "no")]:
+            got = path.kwargs(None, "31 days", None, mutable=mut, immutable=imm)
+            truth = lambda v: True if v is None else v.lower() in ("true", "yes", "on", "1")
+            want = tuple(t for t, on in (("immutable", truth(imm)), ("mutable", truth(mut))) if on)
+            ctx.case(("sharetypes", mut, imm), kind="client-call-site")
+            obs = got[1].get("expiration_sharetypes") if got[0] == "ok" else got
+            if obs != want or (got[0] == "ok" and got[1].get("expiration_override_lease_duration") != 31 * DAY):
+                ctx.oracle_fail("client-storage-config-wrong-sharetypes", "tahoe.cfg expire.mutable=%s expire.immutable=%s reaches the lease expirer as %r, documented %r" % (mut, imm, got, want),
+                                case={"fn": "client-sharetypes", "mutable": mut, "immutable": imm}, expected=repr(want), observed=repr(got))
     ctx.trace(len(cases))
 
 
@@ -660,6 +686,18 @@ def replay(ctx, rec):
         out["documented"] = {"duration": ref_duration, "size": ref_size, "date": ref_date}[fn](s)
         model = {"duration": "parse_duration", "size": "parse_abbreviated_size", "date": "parse_date"}[fn]
         out["model"] = ctx.coq_eval(IMPORTS, "%s %s" % (model, cps(s)))[-200:]
+    elif fn == "client":
+        with _ConfigPath() as path:
+            got = path.kwargs(case.get("reserved_space"), case.get("override_lease_duration"), case.get("cutoff_date"))
+        out["storage_server_holds"] = repr(got)
+        sp, du, da = case.get("reserved_space"), case.get("override_lease_duration"), case.get("cutoff_date")
+        want = {"reserved_space": 0 if sp is None else ref_size(sp), "expiration_override_lease_duration": None if du is None else ref_duration(du),
+                "expiration_cutoff_date": None if da is None else ref_date(da)}
+        if want["reserved_space"] == "unset":
+            want["reserved_space"] = 0
+        out["documented"] = repr(want)
+        if got[0] != "ok" or any(got[1].get(k) != v for k, v in want.items()):
+            ctx.oracle_fail("client-storage-config-wrong-value", "tahoe.cfg %r reaches the storage server / lease expirer as %r, documented %r" % (case, got, want), case=case)
     elif fn in ("date-tz", "date-tz-config"):
         with _ConfigPath() as path:
             tz_case(ctx, impl, path, case["tz"], case["input"], via_config=(fn == "date-tz-config"))
